@@ -6,6 +6,7 @@ pub mod c03;
 pub mod c04;
 pub mod c05;
 pub mod c06;
+pub mod c07;
 pub mod c08;
 pub mod c17;
 pub mod c18;
@@ -19,6 +20,7 @@ pub fn dispatch(ctx: &Ctx, replay: Option<String>) -> ! {
         "C04" => c04::run(ctx, replay),
         "C05" => c05::run(ctx, replay),
         "C06" => c06::run(ctx, replay),
+        "C07" => c07::run(ctx, replay),
         "C08" => c08::run(ctx, replay),
         "C17" => c17::run(ctx, replay),
         "C18" => c18::run(ctx, replay),
